@@ -139,7 +139,7 @@ func c13Gen(r *rand.Rand, tier string) []spec.Case {
 	// paths on which lexical and kernel resolution differ, or that go through a symlink: the file that is
 	// hashed must be the file that is executed
 	for _, h := range hashes {
-		for _, pk := range []string{"dotdot-approved", "dotdot-tampered", "symlink-approved", "symlink-tampered", "relative-approved", "relative-tampered", "argv0-approved", "argv0-tampered"} {
+		for _, pk := range []string{"dotdot-approved", "dotdot-tampered", "symlink-approved", "symlink-tampered", "relative-approved", "relative-tampered", "argv0-approved", "argv0-tampered", "barename-approved", "barename-tampered"} {
 			for k := 0; k < 2; k++ {
 				seed := int64(r.Intn(1000))
 				f := file{"script", pick(r, []int{60, 64, 65, 200})}
@@ -343,7 +343,7 @@ func init() {
 		ID: "C13", Level: "exploration", Race: true, TestName: "TestC13",
 		Gen: c13Gen, Batch: 300, Children: 6, PerCase: 500 * time.Millisecond, Base: 90 * time.Second,
 		Judge: c13Judge, Finish: c13Finish,
-		Rule:        "cases = (file content: executable scripts of several sizes around the 64-byte block boundary and non-executable junk incl. empty; hash function; checksum variant: exact, every single-bit flip [exhaustive for the first file, sampled elsewhere in quick, exhaustive everywhere in thorough], every proper prefix, suffixes, 1-8 trailing bytes (random / zero), doubled, leading byte, empty, nil, zeros, digest of another file, nil Hash, missing binary; also for files chosen so that their digest ends in one or two zero bytes) plus histories of 2-4 launches of one path that share one SecureConfig value while the file is atomically replaced (good/tampered) in between, with and without the caller resetting the hash, and with the file rewritten in place (same inode, same length, modification time put back); plus command paths on which lexical and kernel resolution differ (<dir>/a/link/../bin through a directory symlink) or that are symlinks, relative command paths, and a relative path combined with an argv[0] that names the other file by its absolute path, with the approved and a tampered file on either side. The script writes a launch marker as its first action; the oracle computes the digest independently and requires launched <=> checksum == H(file) plus the corresponding error. Class = variant/hash/file",
+		Rule:        "cases = (file content: executable scripts of several sizes around the 64-byte block boundary and non-executable junk incl. empty; hash function; checksum variant: exact, every single-bit flip [exhaustive for the first file, sampled elsewhere in quick, exhaustive everywhere in thorough], every proper prefix, suffixes, 1-8 trailing bytes (random / zero), doubled, leading byte, empty, nil, zeros, digest of another file, nil Hash, missing binary; also for files chosen so that their digest ends in one or two zero bytes) plus histories of 2-4 launches of one path that share one SecureConfig value while the file is atomically replaced (good/tampered) in between, with and without the caller resetting the hash, and with the file rewritten in place (same inode, same length, modification time put back); plus command paths on which lexical and kernel resolution differ (<dir>/a/link/../bin through a directory symlink) or that are symlinks, relative command paths, and a relative path combined with an argv[0] that names the other file by its absolute path, a bare command name in a hand-built Cmd with a same-named file in a directory at the front of PATH, with the approved and a tampered file on either side. The script writes a launch marker as its first action; the oracle computes the digest independently and requires launched <=> checksum == H(file) plus the corresponding error. Class = variant/hash/file",
 		Assumptions: []string{"'the corresponding error' is matched by errors.Is or message containment (Start wraps two of the sentinels with %s)", "for non-executable junk files 'executed' means exec was attempted (Cmd.Process set or a non-checksum error)"},
 	})
 }
